@@ -139,8 +139,8 @@ open Ombott.FormsDict
 
 def cdSrc (t : String) : Option (Except String CD) :=
   match t.splitOn "/" with
-  | ["h", hdr] => some (match Ombott.Cookies.parseCookies (unhexStr hdr) with
-      | .ok ps => .ok (cdOfPairs ps)
+  | ["h", hdr] => some (match requestCookies (unhexStr hdr) with
+      | .ok c => .ok c
       | .error e => .error e.name)
   | ["p", ps] => (readKV ps).map fun l => .ok (cdOfPairs l)
   | _ => none
